@@ -287,7 +287,14 @@ class MessageManager(ClientLike):
             module.mod_id = msg.data.mod_id
             module.unique = msg.data.allow_multiple == 0
             module.pid = msg.data.pid
-            module.name = msg.data.name
+            try:
+                module.name = msg.data.name
+            except UnicodeDecodeError:
+                self.logger.error(
+                    f"SET_NAME - {module.ipaddr} - Module name is not valid ascii. Closing connection."
+                )
+                self.remove_module(module)
+                return False
         elif isinstance(msg.data, cd.MDF_CONNECT):
             module.mod_id = msg.header.src_mod_id
         else:
@@ -463,7 +470,13 @@ class MessageManager(ClientLike):
             msg (Message): Incoming CLIENT_SET_NAME message
         """
         name_msg = cd.MDF_CLIENT_SET_NAME.from_buffer(msg.data)
-        src_module.name = name_msg.name or ""
+        try:
+            src_module.name = name_msg.name or ""
+        except UnicodeDecodeError:
+            self.logger.warning(
+                f"SET_NAME - {src_module.ipaddr} - ID({src_module.mod_id}) - Module name is not valid ascii. Ignored."
+            )
+            return
         self.logger.info(
             f"SET_NAME - {src_module.ipaddr} - ID({src_module.mod_id}) - {src_module.name}"
         )
